@@ -407,7 +407,7 @@ def idealStmt (rs ws : SideSem) (N : List String) (w : WSt) (c : Claim) : WSt :=
   match resolveField rs.tree c.rd, resolveField ws.tree c.wr with
   | some rl, some wl =>
     if (hops rs.ptrs rl.path).all (nonNil N) then
-      match idealValue c.strat (readLeaf N rl) with
+      match idealValue c.strat (readVal N c rl) with
       | some v => { w with vals := w.vals ++ [(joinPath wl.path, v)] }
       | none => w
     else w
@@ -612,12 +612,14 @@ def allOk : List (String × String) :=
   [("exit", "0"), ("compile", "ok"), ("header", "ok"), ("gofmt", "ok"), ("package", "ok")]
 
 def obs01 (inp : Input) : List (String × String) :=
+  if ctorZeroFatal inp then [("exit", "1")] else
   [("exit", "0"), ("compile", if modelCompiles inp then "ok" else "error"), ("header", "ok"), ("gofmt", "ok"), ("package", "ok")]
 
 /-- WF: a well-typed pair inside the grammar whose output type-checks; F_map…: input classes on which
     the unchanged generator emits Go that does not compile (the C05 / C15 findings of that kind) -/
 def region01 (inp : Input) : String :=
   if !grammarOk inp || !namesOk inp then "Out"
+  else if ctorZeroFatal inp then "Out"          -- the run fails (exit 1): no output to compile (C15 F_ctorZeroAny)
   else if modelCompiles inp then "WF"
   else if F_setOnlyRead inp then "F_mapSetOnlyRead"
   else if F_namedScalarSub inp then "F_mapNamedScalarSub"
